@@ -67,6 +67,9 @@ func (ms msgServer) UpdateParams(goCtx context.Context, msg *types.MsgUpdatePara
 	// set updated new params
 	ms.SetParams(ctx, p)
 	_ = GetAggregatorContext(ctx, ms.Keeper)
-	cs.AddCache(cache.ItemP(p))
+	// the cache is process-wide and committed by EndBlock: a simulated or checked tx must not reach it
+	if !ctx.IsCheckTx() {
+		cs.AddCache(cache.ItemP(p))
+	}
 	return &types.MsgUpdateParamsResponse{}, nil
 }
